@@ -619,6 +619,7 @@ func genC10(c *Ctx) {
 	// ---- constructors of the other layers (own files) ----
 	c10Deep(c)
 	c10Ring(c)
+	c10Views(c)
 	c10RLWE(c)
 	c10Multiparty(c)
 	c10Circuits(c)
